@@ -21,6 +21,13 @@
     MODIFY COLUMN whose definition the reference engine reads as exactly the *old* side's column (the attributes
     `Table.Diff` kept as `previous`); the down half of `C01.changed_column_modified` (Proofs/Changed.lean).
 
+  * `columns_on_reference_engine` — **the column clause of the down migration on the reference engine itself**: under
+    the hypotheses of `C01.columns_on_reference_engine`, the statements `MigrationColumnDown` prints for the diffed
+    record — a dropped column re-added at its old place with its old definition (`removed_column_def`), an added one
+    dropped, a changed one modified back —, executed by `Spec.execAll` on the *new schema*, are well-formed at every
+    step; afterwards the table's column list is `colsEquiv` to the *old* side's and every other table is untouched
+    (Proofs/SpecColsDown.lean).  With the C01 theorem: on columns, down undoes up on the reference engine.
+
   Missing for the full statement: as for C01 (a changed primary key, a COMMENT-only difference, drop suppression); covered by
   correspondence + the executable predicate `Spec.c02` on the implementation's printed down migration.
 -/
@@ -32,6 +39,7 @@ import SqlizeModel.Proofs.EndToEndElems
 import SqlizeModel.Impl.Api
 import SqlizeModel.Spec.Scope
 import SqlizeModel.Props.C01
+import SqlizeModel.Proofs.SpecColsDown
 
 namespace Sqlize.C02
 open Sqlize Sqlize.Spec
@@ -192,5 +200,29 @@ theorem changed_column_reverted (g : Globals) (hg : g.dialect = .mysql) (rc : Bo
   obtain ⟨td, h1, h2, h3, _, h5⟩ :=
     Sqlize.changed_column_modified g hg rc old new dbO dbN ho hn hpo hpn heo hen d hd t tbO tbN hfo hfn cN cO hcN hcO hname hchg
   exact ⟨td, h1, h2, h3, h5⟩
+
+/-- the column clause of C02 on the reference engine: the printed down column statements turn the new schema's table into
+    one whose columns equal the old side's, and leave every other table alone -/
+theorem columns_on_reference_engine (g : Globals) (hg : g.dialect = .mysql) (hio : g.ignoreOrder = false) (rc : Bool)
+    (old new : List Stmt) (dbO dbN : DB) (ho : old.all Stmt.elemSafe = true) (hn : new.all Stmt.elemSafe = true)
+    (hpo : old.all Stmt.plainOpts = true) (hpn : new.all Stmt.plainOpts = true)
+    (heo : execAll rc [] old = some dbO) (hen : execAll rc [] new = some dbN)
+    (d : Migration) (hd : loadAndDiff g old new = .ok d)
+    (t : String) (tbO tbN : TableSpec) (hfo : dbO.find t = some tbO) (hfn : dbN.find t = some tbN)
+    (hc : Abs.OrderCompatible tbN.colNames tbO.colNames) (hne : ∀ n ∈ tbN.colNames ++ tbO.colNames, n ≠ "")
+    (hncO : ∀ c ∈ tbO.cols, ∀ k ∈ c.opts, k.noComment = true)
+    (hncN : ∀ c ∈ tbN.cols, ∀ k ∈ c.opts, k.noComment = true) :
+    ∃ td ∈ d.tables, td.name = t ∧ td.migrationColumnDown g = .ok (Table.walkCols g t false [] td.cols) ∧
+      ∃ db' tb', execAll false dbN (Table.walkCols g t false [] td.cols).1 = some db' ∧
+        db'.find t = some tb' ∧ colsEquiv tb'.cols tbO.cols = true ∧
+        (∀ u, u ≠ t → db'.find u = dbN.find u) ∧ db'.map (·.name) = dbN.map (·.name) :=
+  columns_spec_down_db g hg hio rc old new dbO dbN ho hn hpo hpn heo hen d hd t tbO tbN hfo hfn hc hne hncO hncN
+
+-- non-vacuity: the pair of `C01.exOldCE` / `C01.exNewCE`, walked down from the new schema
+example : ∃ d dbO dbN, loadAndDiff {} C01.exOldCE C01.exNewCE = .ok d ∧ execAll true [] C01.exOldCE = some dbO ∧
+    execAll true [] C01.exNewCE = some dbN ∧
+    (d.tables.map (fun t => (execAll false dbN (Table.walkCols {} t.name false [] t.cols).1).map (fun db' => db'.equiv dbO))) =
+      [some false, some true] :=
+  ⟨_, _, _, by rfl, by rfl, by rfl, by decide⟩
 
 end Sqlize.C02
